@@ -333,6 +333,49 @@ def check_url_file_relative(chk):
         chk.note(f'_R_URL = {rg.pattern}')
 
 
+def check_fetch_include_sim(chk):
+    """C17.C primary (loader part): _fetch_include evaluated on requests with and without the system prefix -> True when decided OK"""
+    from ..absint import Interp, ADict, Sym, RaiseSig
+    mod = chk.repo.module('bare')
+    func = mod.func('_fetch_include', 'C17.C')
+    it = Interp(mod, 'C17.C')
+    it.repo = chk.repo
+    it.oracles['fetch_read_write'] = lambda args, node: Sym('fetched', args[0])
+    try:
+        prefix = it.eval(ast.Name(id='_FETCH_INCLUDE_PREFIX', ctx=ast.Load()), {})
+    except Unrecognised:
+        prefix = None
+    if not isinstance(prefix, str) or not prefix:
+        raise Unrecognised('C17.C', f'the system include prefix is not a text constant ({prefix!r})', mod.rel)
+
+    def names_file(v, path):
+        """the value is the decoded content of <package include dir>/<path>"""
+        txt = repr(v)
+        return isinstance(v, Sym) and "pkgdir('bare_script.include')" in txt and repr(path) in txt and 'fetched' not in txt
+    cases = [(prefix + 'diff.bare', 'diff.bare'), (prefix + 'sub/x.bare', 'sub/x.bare'), ('http://h.example/' + 'diff.bare', None), ('lib/diff.bare', None),
+             ('x' + prefix + 'diff.bare', None), (prefix[:-1], None), ('diff.bare', None)]
+    for url, path in cases:
+        req = ADict({'url': url})
+        it.depth = 0
+        try:
+            got = it.call_function(func, [req], func)
+        except RaiseSig as sig:
+            chk.bad('C17.C', mod, '_fetch_include', f'{url!r}: raises {sig.cls}', f'_fetch_include for the location {url!r} raises {sig.cls}', node=func)
+            return False
+        if path is not None:
+            if not names_file(got, path):
+                chk.bad('C17.C', mod, '_fetch_include', f'{url!r} -> {got!r}'[:110], f'_fetch_include for the system location {url!r} gives {got!r}; it must read {path!r} from the package include '
+                        f'directory (the system prefix removed)', node=func)
+                return False
+        elif got != Sym('fetched', req):
+            chk.bad('C17.C', mod, '_fetch_include', f'{url!r} -> {got!r}'[:110], f'_fetch_include for the location {url!r}, which does not start with the system prefix, gives {got!r}; it must '
+                    f'delegate the unchanged request to fetch_read_write', node=func)
+            return False
+    chk.ok('C17.C', f'_fetch_include evaluated on {len(cases)} requests: locations starting with the system prefix are read from the package include directory with the prefix removed, '
+           f'every other request is delegated unchanged', count=len(cases))
+    return True
+
+
 def check_cli(chk):
     mod = chk.repo.module('bare')
     main = mod.func('main', 'C17.C')
@@ -345,6 +388,13 @@ def check_cli(chk):
         chk.ok('C17.C', f'CLI: systemPrefix = _FETCH_INCLUDE_PREFIX, fetchFn = _fetch_include, urlFn = {norm(d.get("urlFn"))[:60]}')
     else:
         chk.bad('C17.C', mod, 'main', norm(dicts[0])[:140], 'the CLI must configure the system prefix, the include-aware fetch function and a urlFn relative to the script file', node=dicts[0])
+    if chk.guard('C17.C', check_fetch_include_sim, chk):
+        chk.advisory('C17.C', _check_fetch_include_shape, chk, mod)
+    else:
+        _check_fetch_include_shape(chk, mod)
+
+
+def _check_fetch_include_shape(chk, mod):
     f = mod.func('_fetch_include', 'C17.C')
     P = '_FETCH_INCLUDE_PREFIX'
     tests = [s for s in f.body if isinstance(s, ast.If)]
